@@ -147,6 +147,12 @@ pub fn into_tokens(c: char, it: &mut Peekable<Chars>, state: &mut State) -> LexR
                     _ => break,
                 }
             }
+            let leading_zero = |digits: &str| digits.len() > 1 && digits.starts_with('0');
+            if (!float && leading_zero(&number)) || leading_zero(&exp) {
+                let msg = "leading zeros in an integer are not permitted";
+                return Err(LexErr::new(state.pos, None, msg));
+            }
+
             create(
                 state,
                 if e_num {
